@@ -30,7 +30,7 @@ Print Assumptions C19_rule_types.
 (* classification = the documented lists; no type is both *)
 Theorem C19_in_out_lists : forall d,
   (IsIn d = true <-> In (ty d) in_types) /\ (IsOut d = true <-> In (ty d) out_types).
-Proof. intros d. split; [exact (is_in_iff d)|exact (is_out_iff d)]. Qed.
+Proof. exact in_out_lists. Qed.
 Print Assumptions C19_in_out_lists.
 
 Theorem C19_in_out_disjoint : forall d, ~ (IsIn d = true /\ IsOut d = true).
